@@ -240,6 +240,12 @@ func (p *parser) parseExpression(precedence int) ast.Expression {
 	}
 
 	leftExp := prefix()
+	if leftExp == nil {
+		// nothing was parsed (an error has been recorded, or the tag is
+		// empty): there is no left operand for an infix, call or index
+		// expression to attach to.
+		return nil
+	}
 
 	for !p.peekTokenIs(token.SEMICOLON) && precedence < p.peekPrecedence() {
 		infix := p.infixParseFns[p.peekToken.Type]
@@ -249,6 +255,9 @@ func (p *parser) parseExpression(precedence int) ast.Expression {
 
 		p.nextToken()
 		leftExp = infix(leftExp)
+		if leftExp == nil {
+			return nil
+		}
 	}
 
 	return leftExp
